@@ -19,7 +19,7 @@ REDUCED = {'quick': 'second bump / TF-MoDISco bumps at every second position'}
 RULE = ("cases = (caller, background table, bump set (width, sign, amplitude, start), parameters) enumerated completely over the "
         "grid; non-trivial = the call returned at least one seqlet (every returned row is checked); also counted: rows with "
         "start == 0 and rows with end == L")
-ASSUMPTIONS = ["recursive_seqlets: float64 tracks, attribution tolerance 1e-9; tfmodisco_seqlets: float32 tracks (its quantile step requires it), tolerance 1e-5", "a ZeroDivisionError is accepted only when the reference confirms a span length with no positive or no non-positive window (undefined null)", "backgrounds contain both signs for every span length so that the null distributions are defined"]
+ASSUMPTIONS = ["recursive_seqlets: float64 tracks, attribution tolerance 1e-9; tfmodisco_seqlets: float32 tracks (its quantile step requires it), tolerance 1e-5", "a ZeroDivisionError is accepted only when the reference confirms a span length with no positive or no non-positive window (undefined null); for tfmodisco_seqlets only when the null sample drawn for the track has no positive or no negative value, and never for more than a quarter of a shard's calls", "backgrounds contain both signs for every span length so that the null distributions are defined"]
 
 
 def bound(tier):
@@ -61,6 +61,17 @@ def degenerate_null(X, mn, mx):
         if not (d > 0).any() or not (d <= 0).any():
             return True
     return False
+
+
+def tfm_null_undefined(Xt, w):
+    """True iff the null sample the TF-MoDISco caller draws for this track has no positive or no negative value (its
+    fitted Laplacian is undefined, e.g. a quantile coincides with the mode): thresholds cannot be computed - outside the domain."""
+    from tangermeme.seqlet import _laplacian_null
+    try:
+        pos, neg = _laplacian_null(Xt.unfold(-1, w, 1).sum(dim=-1))
+    except Exception:  # noqa: BLE001
+        return False
+    return len(pos) == 0 or len(neg) == 0
 
 
 def check_rec_rows(rec, df, X, thr, mn, mx, fl, case):
@@ -167,6 +178,7 @@ def run_tfm(rec, sh, tier, seed):
     from tangermeme.seqlet import tfmodisco_seqlets
     L, w = sh["L"], sh["w"]
     tot_rows = tot_runs = tot0 = totL = 0
+    n_calls = n_refused = 0
     flanks = (0, 2, 5) if tier == "quick" else (0, 2, 5, 10)
     for n in (1, 2, 3):
         base = background(n, L, seed, amp=0.2)
@@ -185,8 +197,15 @@ def run_tfm(rec, sh, tier, seed):
             for fl in flanks:
                 case = dict(fn="tfmodisco_seqlets", L=L, n=n, window_size=w, flank=fl, bump=list(b), second_bump_start=s2, seed=seed)
                 st, df = call(tfmodisco_seqlets, Xt, window_size=w, flank=fl)
+                n_calls += 1
                 if st != "ok":
                     rec.case(1, 0)
+                    if "ZeroDivision" in str(df) and tfm_null_undefined(Xc, w):
+                        # the Laplacian null fitted to this track is undefined (no positive or no negative null sample): the caller
+                        # refuses loudly and returns nothing, which the property does not speak about
+                        rec.count("refused_degenerate_null")
+                        n_refused += 1
+                        continue
                     rec.violation("tfmodisco_seqlets:raises", case, observed=df)
                     continue
                 rec.case(1, int(len(df) > 0))
@@ -219,6 +238,10 @@ def run_tfm(rec, sh, tier, seed):
                                           expected="> %d" % sup, observed=b_ - a_)
                             break
                 rec.observe(len(rows), sum(r[1] for r in rows))
+    if n_refused * 4 > n_calls or tot_runs == 0:
+        # refusals are the exception (a handful of single-example tracks): anything else means the caller stopped working
+        rec.violation("tfmodisco_seqlets:raises:most_tracks_refused", dict(fn="tfmodisco_seqlets", L=L, window_size=w, seed=seed),
+                      expected="< 25%% of %d calls" % n_calls, observed=n_refused)
     rec.count("rows_checked", tot_rows)
     rec.count("rows_with_start_0", tot0)
     rec.count("rows_with_end_L", totL)
